@@ -237,6 +237,12 @@ def gen_world(rng, profile=None):
             "nominal_miles_per_gallon": rng.choice([30, 22]),
         },
     }
+    # a quarter of the worlds ship their own powertrain tables: the shipped ones cut off at a city speed (a legal table; HIVE holds
+    # the last value for faster links).  The shipped tables are still falling there, so any extrapolation shows.
+    pt_cut = rng.choice([None, None, None, 20, 30])
+    if pt_cut is not None:
+        mech["bev"]["powertrain_file"] = "city-electric.yaml"
+        mech["ice"]["powertrain_file"] = "city-gasoline.yaml"
     pc_step = pick(rng, prof, "pc_steps", 60)
 
     stations = []
@@ -355,6 +361,7 @@ def gen_world(rng, profile=None):
         "rate": rng.choice([[2.2, 1.6, 5], [1, 0, 1], [0.5, 3.0, 0]]) if rng.random() < prof["p_rate"] else None,
         "nsteps": nsteps,
         "file_layout": {"omit_driver_columns": rng.random() < 0.5, "no_station_word": rng.choice(["", "", "none", "None"])},
+        "pt_cut": pt_cut,
         "pc_shape": rng.choice(prof.get("pc_shapes", ["shipped", "shipped", "shipped", "constant", "half_taper"])),
         "time_format": rng.choice(prof.get("time_formats", ["epoch", "epoch", "epoch", "iso", "iso", "iso_utc"])),
         "extent_m": extent_m,
@@ -504,6 +511,15 @@ def materialise(spec, root=None):
         yaml.safe_dump(spec["mech"], f)
     with open(d / "powercurve/pc.yaml", "w") as f:
         yaml.safe_dump(_powercurve_yaml(spec.get("pc_step", 60), spec.get("pc_shape") or "shipped"), f)
+    if spec.get("pt_cut") is not None:
+        os.makedirs(d / "powertrain", exist_ok=True)
+        for src, dst in (("normalized-electric.yaml", "city-electric.yaml"), ("normalized-gasoline.yaml", "city-gasoline.yaml")):
+            with open(os.path.join(REPO, "nrel/hive/resources/powertrain", src)) as f:
+                pt = yaml.safe_load(f)
+            pt["consumption_model"] = [r for r in pt["consumption_model"] if float(r["speed"]) <= spec["pt_cut"]]
+            pt["name"] = dst[:-5]
+            with open(d / "powertrain" / dst, "w") as f:
+                yaml.safe_dump(pt, f)
     inp = {"vehicles_file": "v.csv", "requests_file": "r.csv", "stations_file": "s.csv", "bases_file": "b.csv",
            "chargers_file": "c.csv", "mechatronics_file": "m.yaml"}
     if spec.get("rate"):
